@@ -503,6 +503,21 @@ func (s *State) atLoopHead(l *Loop) bool {
 				c.bindRangeIndex(env, s, fr, l)
 				s.obligeExpr(fmt.Sprintf("inv-keep#L%d.%d", l.Ordinal, i+1), inv.Src, pos, env, inv.E, fmt.Sprintf("%s:%d: loop %d invariant", inv.File, inv.Line, l.Ordinal))
 			}
+			for n, lf := range fr.LoopFrames[l.Head] {
+				cur := s.comp(n, lf.sort)
+				if cur == lf.start {
+					continue
+				}
+				r := c.fresh("lfr")
+				c.declare(r, "Int")
+				path := s.Path.push(fmt.Sprintf("(assert (and (<= 0 %s) (<= %s %s)))", r, r, lf.wm))
+				for _, a := range lf.refs {
+					path = path.push(fmt.Sprintf("(assert (not (= %s %s)))", r, a))
+				}
+				c.Obls = append(c.Obls, &Obligation{Name: fmt.Sprintf("%s/loop-frame#L%d:%s", c.Key, l.Ordinal, n), Kind: "loop-frame", Func: c.Key,
+					Desc: "an iteration writes " + n + " only where `loop modifies` says", Pos: pos, Path: path,
+					Goal: fmt.Sprintf("(= (select %s %s) (select %s %s))", cur, r, lf.start, r), PathID: s.PathID})
+			}
 			if ls.Decreases != nil {
 				v1 := evalDec(ls.Decreases)
 				v0 := fr.LoopVariant[l.Head]
@@ -527,7 +542,17 @@ func (s *State) atLoopHead(l *Loop) bool {
 	// havoc
 	pathBefore := s.Path
 	c.analyseLoop(l)
-	s.havocLoop(l)
+	declared := map[string][]Term{}
+	if ls != nil {
+		for _, m := range ls.Modifies {
+			env := c.funcEnv(s, fr, false)
+			ts, _ := s.modTargets(env, strings.TrimSpace(m))
+			for _, t := range ts {
+				declared[t.Comp] = append(declared[t.Comp], t.Ref)
+			}
+		}
+	}
+	s.havocLoop(l, declared)
 	fr.Entered[l.Head] = true
 	s.runGhost(fr, fmt.Sprintf("loop %d head", l.Ordinal))
 	if ls != nil {
@@ -560,7 +585,7 @@ func (c *Ctx) bindRangeIndex(env *SpecEnv, s *State, fr *Frame, l *Loop) {
 	}
 }
 
-func (s *State) havocLoop(l *Loop) {
+func (s *State) havocLoop(l *Loop, declared map[string][]Term) {
 	c := s.C
 	fr := s.Frame
 	if l.ModAll {
@@ -661,6 +686,20 @@ func (s *State) havocLoop(l *Loop) {
 			if strings.HasPrefix(n, "G:") {
 				s.Heap[n] = nv
 				continue
+			}
+			if refs, ok := declared[n]; ok {
+				// user-declared loop frame: assumed here, re-checked at every back edge
+				fi = &frameInfo{precise: true, refs: refs}
+				if fr.LoopFrames[l.Head] == nil {
+					fr.LoopFrames[l.Head] = map[string]*loopFrame{}
+				} else {
+					cp := map[string]*loopFrame{}
+					for k, v := range fr.LoopFrames[l.Head] {
+						cp[k] = v
+					}
+					fr.LoopFrames[l.Head] = cp
+				}
+				fr.LoopFrames[l.Head][n] = &loopFrame{start: nv, refs: refs, wm: wmEntry, sort: sortS}
 			}
 			if fi.precise {
 				q := c.fresh("r")
